@@ -333,7 +333,9 @@ impl Machine {
                         self.ev[*dst as usize % NE] = Some(EReg { var: out, native: n, is_const: false });
                     }
                     Err(_) => {
-                        self.ev[*dst as usize % NE] = None;
+                        // shape runs keep the register (with a placeholder native value) so that operand
+                        // selection does not depend on the values
+                        self.ev[*dst as usize % NE] = if self.run == Run::Shape { Some(EReg { var: out, native: AE::IDENTITY, is_const: false }) } else { None };
                         native_fails = Some(format!("native decoding rejects {}", hex::encode(native.to_bytes())));
                     }
                 }
@@ -382,7 +384,9 @@ impl Machine {
                     }
                 };
                 self.check_elem(&name, &out, &nat, ctx)?;
-                self.ev[*dst as usize % NE] = Some(EReg { var: out, native: nat, is_const: ca && cb });
+                let is_const = out.cs().is_none();
+                let _ = (ca, cb);
+                self.ev[*dst as usize % NE] = Some(EReg { var: out, native: nat, is_const });
             }
             GOp::BinConst { dst, form, a, c } => {
                 let (va, na, ca) = ereg!(*a);
@@ -402,28 +406,36 @@ impl Machine {
                     }
                 };
                 self.check_elem(&name, &out, &nat, ctx)?;
-                self.ev[*dst as usize % NE] = Some(EReg { var: out, native: nat, is_const: ca });
+                let is_const = out.cs().is_none();
+                let _ = ca;
+                self.ev[*dst as usize % NE] = Some(EReg { var: out, native: nat, is_const });
             }
             GOp::Negate { dst, a } => {
                 let (va, na, ca) = ereg!(*a);
                 let out = va.negate().map_err(|e| synth(e, &name))?;
                 let nat = -na;
                 self.check_elem(&name, &out, &nat, ctx)?;
-                self.ev[*dst as usize % NE] = Some(EReg { var: out, native: nat, is_const: ca });
+                let is_const = out.cs().is_none();
+                let _ = ca;
+                self.ev[*dst as usize % NE] = Some(EReg { var: out, native: nat, is_const });
             }
             GOp::Double { dst, a } => {
                 let (va, na, ca) = ereg!(*a);
                 let out = va.double().map_err(|e| synth(e, &name))?;
                 let nat = na.double();
                 self.check_elem(&name, &out, &nat, ctx)?;
-                self.ev[*dst as usize % NE] = Some(EReg { var: out, native: nat, is_const: ca });
+                let is_const = out.cs().is_none();
+                let _ = ca;
+                self.ev[*dst as usize % NE] = Some(EReg { var: out, native: nat, is_const });
             }
             GOp::DoubleInPlace { dst, a } => {
                 let (mut va, na, ca) = ereg!(*a);
                 va.double_in_place().map_err(|e| synth(e, &name))?;
                 let nat = na.double();
                 self.check_elem(&name, &va, &nat, ctx)?;
-                self.ev[*dst as usize % NE] = Some(EReg { var: va, native: nat, is_const: ca });
+                let is_const = va.cs().is_none();
+                let _ = ca;
+                self.ev[*dst as usize % NE] = Some(EReg { var: va, native: nat, is_const });
             }
             GOp::ScalarMul { dst, a, k, nbits, bits_const } => {
                 let (va, na, ca) = ereg!(*a);
@@ -442,7 +454,9 @@ impl Machine {
                 let out = va.scalar_mul_le(bvars.iter()).map_err(|e| synth(e, &name))?;
                 let nat = na.mul_bigint(kk.to_u64_digits());
                 self.check_elem(&name, &out, &nat, ctx)?;
-                self.ev[*dst as usize % NE] = Some(EReg { var: out, native: nat, is_const: ca && *bits_const });
+                let is_const = out.cs().is_none();
+                let _ = ca;
+                self.ev[*dst as usize % NE] = Some(EReg { var: out, native: nat, is_const });
             }
             GOp::IsEq { a, b } | GOp::IsNeq { a, b } => {
                 let (va, na, _) = ereg!(*a);
@@ -483,7 +497,9 @@ impl Machine {
                 let out = ElementVar::conditionally_select(&c, &va, &vb).map_err(|e| synth(e, &name))?;
                 let nat = if *cond { na } else { nb };
                 self.check_elem(&name, &out, &nat, ctx)?;
-                self.ev[*dst as usize % NE] = Some(EReg { var: out, native: nat, is_const: ca && cb && false });
+                let is_const = out.cs().is_none();
+                let _ = (ca, cb);
+                self.ev[*dst as usize % NE] = Some(EReg { var: out, native: nat, is_const });
             }
             GOp::Isqrt { dst, f } => {
                 let (var, native, is_const) = freg!(*f);
@@ -521,7 +537,9 @@ impl Machine {
                 let out = var.abs().map_err(|e| synth(e, &name))?;
                 let nat = if native.to_bytes()[0] & 1 == 1 { -native } else { native };
                 self.check_fq(&name, &out, &nat, ctx)?;
-                self.fv[*dst as usize % NF] = Some(FReg { var: out, native: nat, is_const });
+                let is_const2 = matches!(out, FqVar::Constant(_));
+                let _ = is_const;
+                self.fv[*dst as usize % NF] = Some(FReg { var: out, native: nat, is_const: is_const2 });
             }
             GOp::ToBits { a } => {
                 let (va, _, _) = ereg!(*a);
